@@ -35,6 +35,7 @@
 #include <tins/exceptions.h>
 #include <tins/endianness.h>
 #include <tins/memory_helpers.h>
+#include <tins/small_uint.h>
 
 using std::string;
 using std::memcpy;
@@ -129,39 +130,40 @@ void DNS::type(QRType new_qr) {
 }
 
 void DNS::opcode(uint8_t new_opcode) {
-    header_.opcode = new_opcode;
+    // Values that don't fit the 4 bit field are rejected rather than truncated
+    header_.opcode = small_uint<4>(new_opcode);
 }
 
 void DNS::authoritative_answer(uint8_t new_aa) {
-    header_.aa = new_aa;
+    header_.aa = small_uint<1>(new_aa);
 }
 
 void DNS::truncated(uint8_t new_tc) {
-    header_.tc = new_tc;
+    header_.tc = small_uint<1>(new_tc);
 }
 
 void DNS::recursion_desired(uint8_t new_rd) {
-    header_.rd = new_rd;
+    header_.rd = small_uint<1>(new_rd);
 }
 
 void DNS::recursion_available(uint8_t new_ra) {
-    header_.ra = new_ra;
+    header_.ra = small_uint<1>(new_ra);
 }
 
 void DNS::z(uint8_t new_z) {
-    header_.z = new_z;
+    header_.z = small_uint<1>(new_z);
 }
 
 void DNS::authenticated_data(uint8_t new_ad) {
-    header_.ad = new_ad;
+    header_.ad = small_uint<1>(new_ad);
 }
 
 void DNS::checking_disabled(uint8_t new_cd) {
-    header_.cd = new_cd;
+    header_.cd = small_uint<1>(new_cd);
 }
 
 void DNS::rcode(uint8_t new_rcode) {
-    header_.rcode = new_rcode;
+    header_.rcode = small_uint<4>(new_rcode);
 }
 
 bool DNS::contains_dname(uint16_t type) {
